@@ -67,7 +67,23 @@ theorem fin_refs_zero {g sh Q log sh' i push evs} (h : InvP g sh (i :: Q) log)
     subst hff
     simp only [exec, execFin] at he
     cases hfind : findId sh.nodes fid with
-    | none => simp [hfind] at he; obtain ⟨_, _, rfl⟩ := he; cases hev
+    | none =>
+      -- a stale pointer: the node is not in the table, so nothing references it
+      simp only [hfind] at he
+      have hid : id = fid := by
+        unfold execFinStale at he
+        split at he
+        · simp only [Option.some.injEq, Prod.mk.injEq] at he; obtain ⟨_, _, rfl⟩ := he; cases hev
+        · rename_i n hn
+          simp only [Option.some.injEq, Prod.mk.injEq] at he; obtain ⟨_, _, rfl⟩ := he
+          obtain ⟨d, _, rfl⟩ := List.mem_map.mp hev
+          have := (findId_some hn).2
+          simp [isFinOf] at hfin
+          omega
+      rcases Nat.eq_zero_or_pos (refsP sh (Instr.fin fid false :: Q) id) with h0 | hpos
+      · exact h0
+      · obtain ⟨m, hm, hmid⟩ := h.ex id hpos
+        exact absurd (hmid.trans hid) (findId_none hfind m hm)
     | some n0 =>
       have hfs := findId_some hfind
       simp [hfind] at he; obtain ⟨_, _, rfl⟩ := he
@@ -219,7 +235,9 @@ theorem node_step {g sh Q log sh' i push evs} (h : InvP g sh (i :: Q) log)
   case fin fid ff =>
     simp only [exec, execFin] at he
     cases hfind : findId sh.nodes fid with
-    | none => simp [hfind] at he; obtain ⟨rfl, _, _⟩ := he; have := hu n' hn' hid; subst this; exact triv
+    | none =>
+      simp only [hfind] at he; obtain ⟨st, dd, rfl, rfl⟩ := execFinStale_cases he
+      have := hu n' hn' hid; subst this; exact triv
     | some n0 =>
       have hfs := findId_some hfind
       simp [hfind] at he; obtain ⟨rfl, _, rfl⟩ := he
@@ -283,12 +301,13 @@ theorem ctor_step {sh sh' : Shared} {i push evs} (he : exec sh i = some (sh', pu
       | (rcases mem_finEvents hev with ⟨_, _, h⟩ | ⟨_, _, h⟩ <;> cases h)
   case fin fid ff =>
     exfalso
-    simp only [exec, execFin] at he
+    simp only [exec, execFin, execFinStale] at he
     repeat' (split at he)
     all_goals (simp only [Option.some.injEq, Prod.mk.injEq, reduceCtorEq] at he)
     all_goals (obtain ⟨_, _, rfl⟩ := he)
     all_goals first
       | (cases hev; done)
+      | (obtain ⟨_, _, h⟩ := List.mem_map.mp hev; cases h; done)
       | (rcases mem_finEvents hev with ⟨_, _, h⟩ | ⟨_, _, h⟩ <;> cases h)
   all_goals (exfalso; exec_split he)
   all_goals (simp only [List.mem_cons, List.not_mem_nil, or_false] at hev)
